@@ -15,7 +15,7 @@ PROPS = ("C03", "C04", "C09", "C12", "C14", "C15")
 # whose violations carry that property id; the rest produce notes only)
 INV = {
     "C09": ("I1", "I2", "I3", "I8"),
-    "C14": ("I1", "I2", "I8"),
+    "C14": ("I1", "I2", "I3", "I8"),
     "C15": ("I1", "I7", "I8"),
     "C03": ("I1", "I4"),
     "C04": ("I1", "I5"),
@@ -33,6 +33,7 @@ KNOWN = []      # set by check.py from known_findings.json (status == known)
 
 def world_cfg(prop):
     return {"prop": prop, "inv": INV[prop], "i3_other": True,
+            "i3_only_copies": prop == "C14",
             "known": [k for k in KNOWN if k[0] == prop]}
 
 
